@@ -4,15 +4,16 @@
     sequence of random picks the model accepts (index in range; under random.choices a non-zero
     weight), hence for every seed and every generator: a run that returns [Ok] is exactly a run
     whose picks were valid ([EOutOfFuel] marks an invalid pick).
-    Not proved here, decided on the implementation's output by the check only: each copy is
-    isomorphic to its template, canonical numbering after sort_nodes_by_attr, valence completeness
-    (see the corollary of the hydrogen component's theorem below). *)
+    copy_iso_template, numbering_canonical and valence completeness are theorems too (below); the
+    only recorded third-party step is pysmiles' correct_aromatic_rings (transcript with a checked
+    contract, as in C09). *)
 From Coq Require Import String.
 From Coq Require Import List Ascii ZArith Bool.
 From CGV Require Import Base.PyBase Base.PyVal Base.PyGen Sample.GenSupport Gen.SamplerGen Sample.SampleImpl
      Sample.SampleDefs Sample.SampleSpec Sample.SampleProofs Sample.SampleTree Sample.SampleFragid Sample.SampleCopy Sample.SampleAccount
      Sample.SampleValid Sample.SampleExample.
 From CGV Require Base.NxGraph Resolve.GraphOps Resolve.SortProofs Sample.SampleFinal Sample.SampleNumbering.
+From CGV Require Hydro.Hydrogens Hydro.HydroDefs Hydro.SquashDefs Hydro.RebuildProofs Sample.SampleValence.
 Import ListNotations.
 Open Scope Z_scope.
 
@@ -113,6 +114,32 @@ Section C16.
     n_fragid n = b_fo b.
   Proof. exact copy_selected_by_fragid. Qed.
 
+  (** all-atom samples: the graph handed to rebuild_h_atoms (the replay of the grown molecule into
+      networkx) is well formed for EVERY run, so the hydrogen component's end-to-end theorem (C09,
+      Hydro/RebuildProofs.v) applies: valence completeness of samples is its corollary *)
+  Theorem C16_sample_graph_wf : forall target fuel rng start nm i0 m cw log rng',
+    sample_growth M c0 madd mltb misz R pick cfg target fuel rng start = Ok (nm, i0, m, cw, log, rng') ->
+    SquashDefs.wf_graph (SampleFinal.to_nx m) /\
+    NoDup (NxGraph.node_keys (SampleFinal.to_nx m)) /\ RebuildProofs.closed_g (SampleFinal.to_nx m) /\
+    RebuildProofs.noself_g (SampleFinal.to_nx m).
+  Proof. exact (SampleValence.sample_graph_wf M c0 madd mltb misz R pick cfg Wf). Qed.
+  Theorem C16_sample_valence_complete : forall target fuel rng start nm i0 m cw log rng' ca car g',
+    sample_growth M c0 madd mltb misz R pick cfg target fuel rng start = Ok (nm, i0, m, cw, log, rng') ->
+    Hydrogens.rebuild_h_atoms false ca (SampleFinal.to_nx m) car = Ok g' ->
+    exists g1, car = Some g1 /\
+      ((forall i n, NxGraph.gfind i g1 = Some n -> RebuildProofs.no_rs n) ->
+       forall k n, NxGraph.gfind k g1 = Some n -> Hydrogens.is_H (NxGraph.na n) = false ->
+         exists val b idxs n', Hydrogens.valence_of (NxGraph.na n) = Ok val /\ Hydrogens.sum_orders (NxGraph.nadj n) = Ok b /\
+           NxGraph.gfind k g' = Some n' /\
+           NxGraph.nadj n' = NxGraph.nadj n ++ map (fun j => (j, Hydrogens.h_edge_attrs)) idxs /\
+           (forall j, In j idxs -> exists h, NxGraph.gfind j g' = Some h /\ NxGraph.nadj h = [(k, Hydrogens.h_edge_attrs)] /\
+                                             Hydrogens.is_H (NxGraph.na h) = true) /\
+           (HydroDefs.fits val b -> exists v, HydroDefs.least_fitting val b v /\
+              (Z.even b = true -> 2 * Z.of_nat (length idxs) = 2 * v - b /\ Hydrogens.sum_orders (NxGraph.nadj n') = Ok (2 * v)) /\
+              (Z.even b = false -> 2 * Z.of_nat (length idxs) = 2 * v - b - 1 /\
+                                   Hydrogens.sum_orders (NxGraph.nadj n') = Ok (2 * v - 1)))).
+  Proof. exact (SampleValence.sample_valence_complete M c0 madd mltb misz R pick cfg Wf). Qed.
+
   (** descriptor_once: per node and descriptor, occurrences still on the node plus occurrences
       consumed by bonds never increase along a step for old nodes, and start at what the template
       wrote for the nodes of the new copy: no written descriptor is used twice *)
@@ -177,6 +204,8 @@ Print Assumptions C16_tree_of_fragments_membership.
 Print Assumptions C16_choice_valid_draw.
 Print Assumptions C16_valid_draw_accepted.
 Print Assumptions C16_descriptor_once.
+Print Assumptions C16_sample_graph_wf.
+Print Assumptions C16_sample_valence_complete.
 Print Assumptions C16_copy_iso_template.
 Print Assumptions C16_copy_selected_by_fragid.
 Print Assumptions C16_numbering_canonical.
